@@ -113,6 +113,29 @@ fn boundary(ctx: &mut Ctx) {
     ts.push(OwnedTerm::ImproperList { elements: vec![OwnedTerm::Integer(1)], tail: Box::new(OwnedTerm::Binary(vec![])) });
     ts.push(OwnedTerm::Nil);
     ts.push(OwnedTerm::List(vec![]));
+    // maps whose keys are numbers of different representations that lie next to each other without being equal: an
+    // integer just beyond what a float holds exactly and the float it would round to, at every width the wire uses for
+    // the integer (i64 in the caller's term, a 7-, 8-, 9-digit big integer after decoding). Erlang keeps both keys; a
+    // comparison that rounds merges them on the way back (seeded change S85). Equal values of different type (1 and 1.0) are
+    // the recorded finding of C03/C12 and are not used here.
+    for (i, f) in [((1i64 << 53) + 1, (1u64 << 53) as f64), ((1i64 << 54) + 2, (1u64 << 54) as f64), ((1i64 << 55) + 4, (1u64 << 55) as f64),
+                   ((1i64 << 56) - 1, (1u64 << 56) as f64), ((1i64 << 62) + 1, (1u64 << 62) as f64), (i64::MAX, 9223372036854775808.0),
+                   (-(1i64 << 53) - 1, -((1u64 << 53) as f64)), (i64::MIN + 1, -9223372036854775808.0)] {
+        let mut m = std::collections::BTreeMap::new();
+        m.insert(OwnedTerm::Integer(i), OwnedTerm::Atom(Atom::new("int")));
+        m.insert(OwnedTerm::Float(f), OwnedTerm::Atom(Atom::new("float")));
+        if m.len() == 2 {
+            ts.push(OwnedTerm::Map(m));
+        }
+    }
+    for (digits, f) in [(vec![1u8, 0, 0, 0, 0, 0, 0, 0, 1], 18446744073709551616.0f64), (vec![1, 0, 0, 0, 0, 0, 0, 128], 9223372036854775808.0)] {
+        let mut m = std::collections::BTreeMap::new();
+        m.insert(OwnedTerm::BigInt(BigInt::new(Sign::Positive, digits)), OwnedTerm::Atom(Atom::new("int")));
+        m.insert(OwnedTerm::Float(f), OwnedTerm::Atom(Atom::new("float")));
+        if m.len() == 2 {
+            ts.push(OwnedTerm::Map(m));
+        }
+    }
     for t in &ts {
         ctx.count("boundary_terms");
         one(ctx, "boundary", t);
